@@ -502,6 +502,9 @@ Proof.
   exact (T r Hr).
 Qed.
 
+(* kernel conversion must not start by evaluating the renderer on open terms *)
+Strategy 1000 [prepare_val render_of_raw].
+
 Theorem C17_number_rendering_partial_thm : forall u raw prec,
   0 <= prec <= 20 ->
   (0 <= raw < 1000 \/ (u = false /\ 18446744073709551616 - 1000 <= raw < 18446744073709551616) \/
@@ -545,11 +548,23 @@ Qed.
 Theorem C17_old_code_refuted_thm :
   (* no authentication: stack garbage is sent as password; connect flags 0x46 (password without user name) is not
      even valid MQTT 3.1.1 *)
-  nthz (connect_bytes OLD_NOAUTH w_cfg_noauth [65; 66]) 9 = 70 /  dec_connect (connect_bytes OLD_NOAUTH w_cfg_noauth [65; 66]) = None /  (exists k, dec_connect (connect_bytes FIXED w_cfg_noauth [65; 66]) = Some k /\ k_pwd k = None /\ k_user k = None) /  (* a password of the maximum storable length loses its tail *)
-  stored w_cfg_tail [117] (repeat 80 33 ++ repeat 84 253) /  password_of OLD_TAIL w_cfg_tail = repeat 80 33 /\ password_of FIXED w_cfg_tail = repeat 80 33 ++ repeat 84 253 /  (* channel numbers 256, -1, -, 1.7 *)
-  parser_set_on OLD_CHAN w_P (w_t [50;53;54]) [49] = Some (0, 1) /\ parser_set_on FIXED w_P (w_t [50;53;54]) [49] = None /  parser_set_on OLD_CHAN w_P (w_t [45;49]) [49] = Some (255, 1) /\ parser_set_on FIXED w_P (w_t [45;49]) [49] = None /  parser_set_on OLD_CHAN w_P (w_t [45]) [49] = Some (0, 1) /\ parser_set_on FIXED w_P (w_t [45]) [49] = None /  parser_set_on OLD_CHAN w_P (w_t [49;46;55]) [49] = Some (1, 1) /\ parser_set_on FIXED w_P (w_t [49;46;55]) [49] = None /  (* any byte instead of '/' after the prefix *)
-  parser_set_on OLD_SLASH w_P (w_P ++ [88] ++ s_channels ++ [50; 47] ++ s_set_on) [49] = Some (2, 1) /  parser_set_on FIXED w_P (w_P ++ [88] ++ s_channels ++ [50; 47] ++ s_set_on) [49] = None /  (* unsigned values above INT64_MAX *)
-  list_eqb (prepare_val OLD_UVAL true 18446744073709551615 2) (render_of_raw true 18446744073709551615 2) = false /  prepare_val FIXED true 18446744073709551615 2 = render_of_raw true 18446744073709551615 2.
+  nthz (connect_bytes OLD_NOAUTH w_cfg_noauth [65; 66]) 9 = 70 /\
+  dec_connect (connect_bytes OLD_NOAUTH w_cfg_noauth [65; 66]) = None /\
+  (exists k, dec_connect (connect_bytes FIXED w_cfg_noauth [65; 66]) = Some k /\ k_pwd k = None /\ k_user k = None) /\
+  (* a password of the maximum storable length loses its tail *)
+  stored w_cfg_tail [117] (repeat 80 33 ++ repeat 84 253) /\
+  password_of OLD_TAIL w_cfg_tail = repeat 80 33 /\ password_of FIXED w_cfg_tail = repeat 80 33 ++ repeat 84 253 /\
+  (* channel numbers 256, -1, -, 1.7 *)
+  parser_set_on OLD_CHAN w_P (w_t [50;53;54]) [49] = Some (0, 1) /\ parser_set_on FIXED w_P (w_t [50;53;54]) [49] = None /\
+  parser_set_on OLD_CHAN w_P (w_t [45;49]) [49] = Some (255, 1) /\ parser_set_on FIXED w_P (w_t [45;49]) [49] = None /\
+  parser_set_on OLD_CHAN w_P (w_t [45]) [49] = Some (0, 1) /\ parser_set_on FIXED w_P (w_t [45]) [49] = None /\
+  parser_set_on OLD_CHAN w_P (w_t [49;46;55]) [49] = Some (1, 1) /\ parser_set_on FIXED w_P (w_t [49;46;55]) [49] = None /\
+  (* any byte instead of '/' after the prefix *)
+  parser_set_on OLD_SLASH w_P (w_P ++ [88] ++ s_channels ++ [50; 47] ++ s_set_on) [49] = Some (2, 1) /\
+  parser_set_on FIXED w_P (w_P ++ [88] ++ s_channels ++ [50; 47] ++ s_set_on) [49] = None /\
+  (* unsigned values above INT64_MAX *)
+  list_eqb (prepare_val OLD_UVAL true 18446744073709551615 2) (render_of_raw true 18446744073709551615 2) = false /\
+  prepare_val FIXED true 18446744073709551615 2 = render_of_raw true 18446744073709551615 2.
 Proof.
   split; [vm_compute; reflexivity|]. split; [vm_compute; reflexivity|].
   split; [eexists; split; [vm_compute; reflexivity|split; reflexivity]|].
